@@ -450,6 +450,8 @@ class BaseParser:
     ):
         addition = {}
         result = {}
+        inputs = {}
+        # the input value of each field that was given (ignored by no_input, excluded on error or parsed)
         dependencies = set()
         unprovided_fields = set()
         options = context.options
@@ -465,6 +467,7 @@ class BaseParser:
                 continue
 
             name = field.attname if as_attname else field.name
+            inputs.setdefault(name, value)
 
             if field.is_no_input(value, options=options):
                 # no input field does not take input from __init__
@@ -497,7 +500,7 @@ class BaseParser:
         # under ignore_required no field is required (is_required), but the defaults of unprovided fields still apply
         for key, field in self.fields.items():
             name = field.attname if as_attname else field.name
-            if name in result:
+            if name in inputs:
                 continue
             if excluded_keys and name in excluded_keys:
                 continue
